@@ -133,10 +133,15 @@ def _through_main(text, settings, stem, encoding, newline, stdout_mode):
         argv = [src]
         ov = getattr(settings, "_vf_overrides", None) if settings is not None else None
         if ov and any(ov.values()):
-            cfg = os.path.join(sb, "cfg.yaml")
+            # the settings reach CMinx through a -s file or (two cases in five) through the per-user configuration file
+            as_user = len(text) % 5 < 2
+            cfg = os.path.join(home, ".config", "cminx", "config.yaml") if as_user else os.path.join(sb, "cfg.yaml")
             with open(cfg, "w", encoding="utf-8") as f:
                 yaml.safe_dump({k: v for k, v in ov.items() if v}, f, allow_unicode=True)
-            argv += ["-s", cfg]
+            if not as_user:
+                argv += ["-s", cfg]
+            PIPELINE_STATS["settings-via-user-file" if as_user else "settings-via-s-file"] = \
+                PIPELINE_STATS.get("settings-via-user-file" if as_user else "settings-via-s-file", 0) + 1
         out = os.path.join(sb, "out")
         if not stdout_mode:
             argv += ["-o", out]
